@@ -98,6 +98,8 @@ package adapter
 //@ macro adapterWF(a) = a.logger != nil && a.eventService != nil && a.bankKeeper != nil && a.dispatcher != nil && a.router != nil
 //@ typeinv Adapter adapterWF New SetRouter
 //@ func New(cdc, sb, logger, eventService, bankKeeper, dispatcher) (result, err)
+//   wiring: the component keeps the handlers it was given (C08/C09: see keeper.NewKeeper)
+//@   ensures[C08,C09] err == nil ==> result != nil && result.dispatcher == dispatcher
 //@   ensures[C11,C14,C17] err == nil ==> result != nil && adapterWF(result)
 //   SetRouter is the one other function that stores to a field: it replaces the router by a non-nil one
 //@ func (a *Adapter) SetRouter(r) (err)
